@@ -26,9 +26,13 @@ type c04Cfg struct {
 	Mode    string // stateful | stateless | disabled
 	GetSSE  bool
 	PostSSE bool
+	MW      bool // two pass-through middlewares are configured (the state machine is the same)
 }
 
 func (c c04Cfg) String() string {
+	if c.MW {
+		return fmt.Sprintf("%s/get=%v/postsse=%v/middleware", c.Mode, c.GetSSE, c.PostSSE)
+	}
 	return fmt.Sprintf("%s/get=%v/postsse=%v", c.Mode, c.GetSSE, c.PostSSE)
 }
 
@@ -40,9 +44,10 @@ func c04Configs(tier string) []c04Cfg {
 				if tier != "thorough" && m != "stateful" && !(g && p) && !(!g && !p) {
 					continue
 				}
-				out = append(out, c04Cfg{m, g, p})
+				out = append(out, c04Cfg{m, g, p, false})
 			}
 		}
+		out = append(out, c04Cfg{m, true, true, true})
 	}
 	return out
 }
@@ -244,6 +249,12 @@ func c04NewWorld(cfg c04Cfg, neighbour bool) *c04World {
 		opts = append(opts, mcp.WithStatelessMode(true))
 	case "disabled":
 		opts = append(opts, mcp.WithoutSession())
+	}
+	if cfg.MW {
+		pass := func(next mcp.HandlerFunc) mcp.HandlerFunc {
+			return func(ctx context.Context, req *mcp.JSONRPCRequest) (mcp.JSONRPCMessage, error) { return next(ctx, req) }
+		}
+		opts = append(opts, mcp.WithMiddleware(pass, pass))
 	}
 	srv := mcp.NewServer("s", "1", opts...)
 	srv.RegisterTool(mcp.NewTool("t"), func(ctx context.Context, req *mcp.CallToolRequest) (*mcp.CallToolResult, error) {
@@ -586,7 +597,7 @@ func c04IDQuality(tier string, i int) CaseResult {
 		var reqs []int
 		vsched.Run(vsched.Config{}, func() {
 			vrand.SetSource(src)
-			w := c04NewWorld(c04Cfg{"stateful", true, true}, false)
+			w := c04NewWorld(c04Cfg{"stateful", true, true, false}, false)
 			r := w.peer.Post("", hx.InitBody(1, "2025-03-26"))
 			id = r.SessionID()
 			reqs = vrand.Requests()
@@ -669,7 +680,7 @@ func c04DoubleDelete(prefix []int, n int) explore.Outcome {
 	obs := &hx.Log{}
 	res := vsched.Run(cfgFor(prefix), func() {
 		vsched.SetBranching(false)
-		w := c04New(c04Cfg{"stateful", true, true})
+		w := c04New(c04Cfg{"stateful", true, true, false})
 		o := w.do(c04Event{"init", -1})
 		o2 := w.do(c04Event{"init", -1})
 		if o.Status != 200 || o2.Status != 200 || len(w.ids) != 2 {
@@ -724,7 +735,7 @@ func c04DeleteRace(prefix []int, meta []vsched.ChoicePoint) explore.Outcome {
 	obs := &hx.Log{}
 	res := vsched.Run(cfgFor(prefix), func() {
 		vsched.SetBranching(false)
-		w := c04New(c04Cfg{"stateful", true, true})
+		w := c04New(c04Cfg{"stateful", true, true, false})
 		o := w.do(c04Event{"init", -1})
 		if o.Status != 200 || len(w.ids) != 1 {
 			viol = append(viol, V("harness", "init failed: %+v", o))
